@@ -34,6 +34,16 @@ Proof.
   intros v f t H Hne E. unfold field_coordinate in E. cbn in E. rewrite H in E. inversion E. contradiction.
 Qed.
 
+Lemma coordinate_mode_lemma : forall (v : json) (f : finfo),
+    field_coordinate true (Some v) f = (fi_parent f, fi_name f) /\
+    field_coordinate false (Some v) f = (match typename_of v with Some t => t | None => fi_parent f end, fi_name f) /\
+    (forall t, typename_of v = Some t -> t <> fi_parent f ->
+               field_coordinate false (Some v) f <> field_coordinate true (Some v) f).
+Proof.
+  intros v f. split; [apply coordinate_mode_prefetch|]. split; [apply coordinate_mode_postfetch|].
+  apply coordinate_mode_differ.
+Qed.
+
 (* consequence for the two modes on one field: the pre-fetch renderer consults the batch decision
    of the plan-time coordinate, the post-fetch renderer asks about the runtime coordinate *)
 Lemma consulted_modes : forall v f s r, fi_rule f = true -> fi_sources f = s :: r ->
